@@ -108,7 +108,9 @@ class IncidentReporter:
 
         # use self.logger.buffers, copy events into logfile
         events = list(self.logger.get_buffered_events())
-        events.sort(key=lambda a: a['num'])
+        # an application may have passed anything as num= to log.msg():
+        # never let one such event keep the incident from being recorded
+        events.sort(key=lambda a: a['num'] if isinstance(a['num'], int) else -1)
         for e in events:
             flogfile.serialize_wrapper(self.f1, e,
                                        from_=self.tubid_s, rx_time=now)
